@@ -362,6 +362,11 @@ def h_chain(case, pick, st, stats):
             rec["events"].append(ev)
             rec["metas"].append(meta)
             continue
+        except OverflowError as e:
+            if "int8" in str(e):
+                break            # more than 127 members in a union (zipping unions repeatedly): beyond the int8 tags; the chain stops
+            rec["problems"].append([meta, "not an ordinary exception: %s: %s" % (type(e).__name__, str(e)[:200])])
+            break
         except Exception as e:
             rec["problems"].append([meta, "not an ordinary exception: %s: %s" % (type(e).__name__, str(e)[:200])])
             break
